@@ -392,5 +392,39 @@ theorem dumpsSt_state (s : CIState) : ∃ vs', (dumpsSt s).1.ci = { s.ci with va
             rw [hs] at ht
             cases r <;> exact ⟨vs', rfl, ht, .inr rfl⟩
 
+/-! ### any number of dumps -/
+
+/-- what relates the object before and after any number of dumps: the same sections, variants `Touched`, any header version -/
+def c8Touched (s s' : CIState) : Prop := ∃ vs', s'.ci = { s.ci with variants := vs' } ∧ TouchedL s.ci.variants vs'
+
+theorem c8_touched_refl (s : CIState) : c8Touched s s := ⟨s.ci.variants, rfl, TouchedL.refl _⟩
+
+theorem c8_touched_trans {a b c : CIState} (h1 : c8Touched a b) (h2 : c8Touched b c) : c8Touched a c := by
+  obtain ⟨v1, e1, t1⟩ := h1
+  obtain ⟨v2, e2, t2⟩ := h2
+  refine ⟨v2, ?_, ?_⟩
+  · rw [e2, e1]
+  · rw [e1] at t2
+    exact t1.trans t2
+
+theorem c8_dumpsSt_touched (s : CIState) : c8Touched s (dumpsSt s).1 := by
+  obtain ⟨vs', e, ht, _⟩ := dumpsSt_state s
+  exact ⟨vs', e, ht⟩
+
+/-- a dump of a touched object writes what the dump of the original writes -/
+theorem c8_dumpsSt_of_touched {s s' : CIState} (h : c8Touched s s') : (dumpsSt s').2 = (dumpsSt s).2 := by
+  obtain ⟨vs', e, ht⟩ := h
+  rw [dumpsSt_snd, dumpsSt_snd, e]
+  exact dumps_touched s.ci ht
+
+/-- the object after `n` dumps in a row (each may succeed or fail) -/
+def c8After : Nat → CIState → CIState
+  | 0, s => s
+  | n + 1, s => c8After n (dumpsSt s).1
+
+theorem c8_after_touched : ∀ (n : Nat) (s : CIState), c8Touched s (c8After n s)
+  | 0, s => c8_touched_refl s
+  | n + 1, s => c8_touched_trans (c8_dumpsSt_touched s) (c8_after_touched n (dumpsSt s).1)
+
 end CI
 end PM
